@@ -289,9 +289,13 @@ class FileWorld:
     def __init__(self, template_bytes, behaviours, task_names, *, events=False):
         _count_cas()
         FileWorld._n += 1
-        self.dir = os.path.join(SHM, f"verif-{os.getpid()}")
-        os.makedirs(self.dir, exist_ok=True)
+        self.dir = scratch_dir()
         self.path = os.path.join(self.dir, f"x{FileWorld._n}.db")
+        for suffix in ("-journal", "-wal", "-shm"):  # never inherit a stale hot journal
+            try:
+                os.remove(self.path + suffix)
+            except FileNotFoundError:
+                pass
         with open(self.path, "wb") as f:
             f.write(template_bytes)
         self.w = W.World(url=f"sqlite:///{self.path}", events=events)
@@ -315,9 +319,25 @@ class FileWorld:
                 pass
 
 
+_SCRATCH = {}
+
+
+def scratch_dir():
+    """A directory that belongs to this process only (pids are recycled, so never derive it from the pid alone)."""
+    import atexit
+    import tempfile
+
+    pid = os.getpid()
+    if _SCRATCH.get("pid") != pid:
+        _SCRATCH["pid"] = pid
+        _SCRATCH["dir"] = tempfile.mkdtemp(prefix=f"verif-{pid}-", dir=SHM)
+        atexit.register(cleanup_dir)
+    return _SCRATCH["dir"]
+
+
 def cleanup_dir():
-    d = os.path.join(SHM, f"verif-{os.getpid()}")
-    if os.path.isdir(d):
+    d = _SCRATCH.get("dir") if _SCRATCH.get("pid") == os.getpid() else None
+    if d and os.path.isdir(d):
         for f in os.listdir(d):
             try:
                 os.remove(os.path.join(d, f))
@@ -327,6 +347,7 @@ def cleanup_dir():
             os.rmdir(d)
         except OSError:
             pass
+        _SCRATCH.clear()
 
 
 # ---------------------------------------------------------------------------
@@ -415,3 +436,150 @@ class DrainMemo:
             steps += 1
         self.memo[key] = (st.view, led, aud2, ql2)
         return view, audit, qlog, st.view, led, aud2, ql2
+
+
+def run_engine_scenario(workload, skip, scripts, oracle, bound, *, shard=None, setup_actions=(), time_cap=1500,
+                        max_executions=60000, events=False, prep_hook=None, extra_scripts=None):
+    """Generic E3 job: prepare sequentially, race `scripts` (process_one counts per worker),
+    drain, evaluate oracle(ctx) -> list of violations.  ctx carries everything observed."""
+    from .world import dumps
+
+    prep = prepare(workload, skip, events=events, setup_actions=setup_actions)
+    if prep_hook:
+        prep_hook(prep)
+    memo = DrainMemo(workload, events=events)
+    _v, _a, _q, ref_final, ref_led, ref_aud, ref_q = memo.drain(prep["image"], prep["behaviours"], prep["task_names"],
+                                                                 prep["exec_counts"])
+    ref = {"final": ref_final, "ledger": ref_led, "outcome": dumps(ref_final.outcome()),
+           "admissible": sequential_outcomes(workload, prep, events=events)}
+    stats = {"cas_lost": 0, "drain_memo_hits": 0, "handler_errors": 0}
+
+    def make_execution():
+        fw = FileWorld(prep["image"], prep["behaviours"], prep["task_names"], events=events)
+        fw.w.exec_counts = dict(prep["exec_counts"])
+        errors = []
+
+        def script(n):
+            def run():
+                for _ in range(n):
+                    try:
+                        fw.w.processor.process_one()
+                    except Exception as e:
+                        errors.append(type(e).__name__)
+            return run
+
+        def finish(sched):
+            img = fw.image()
+            led1 = list(fw.w.ledger)
+            ec = dict(fw.w.exec_counts)
+            fw.close()
+            view, audit, qlog, final, led2, aud2, ql2 = memo.drain(img, prep["behaviours"], prep["task_names"], ec)
+            lab = view.labels
+            aud1 = [(r[1], lab.get(r[2], r[2]), r[3], r[4]) for r in audit]
+            ctx = {"view_after_race": view, "final": final, "ledger": led1 + led2, "ledger_race": led1,
+                   "audit": aud1 + list(aud2), "audit_race": aud1, "qlog": list(qlog) + list(ql2), "labels": lab,
+                   "errors": errors, "ref": ref, "prep": prep}
+            viols = oracle(ctx)
+            stats["drain_memo_hits"] = memo.hits
+            stats["cas_lost"] = CAS_LOST[0]
+            stats["handler_errors"] += len(errors)
+            return viols, dumps(final.outcome()) + "|" + ",".join(sorted(errors))
+
+        def extra(kind):
+            def run():
+                try:
+                    if kind == "retention":
+                        fw.w.store.cleanup_completed_stage_claims()
+                        fw.w.store.cleanup_old_processed_messages(max_age_hours=0.0)
+                    elif kind == "recovery":
+                        fw.w.processor.run_recovery()
+                except Exception as e:
+                    errors.append("extra:" + type(e).__name__)
+            return run
+
+        return [script(n) for n in scripts] + [extra(k) for k in (extra_scripts or [])], finish
+
+    ex = IlvExplorer(make_execution, bound, max_executions=max_executions, time_cap=time_cap,
+                     shard=tuple(shard) if shard else None).run()
+    cleanup_dir()
+    s = ex.summary()
+    s["stats"] = stats
+    s["pending_at_start"] = prep["pending"]
+    s["outcome_classes"] = {k[-70:]: n for k, n in list(ex.outcomes.items())[:6]}
+    s["_violations"] = ex.violations
+    s["samples"] = ex.samples[:1]
+    return s
+
+
+def aggregate_e3(results, assumptions=None, extra=None):
+    good = [r for r in results if "harness_error" not in r]
+    execs = sum(r.get("executions", 0) for r in good)
+    pts = sum(r.get("points", 0) for r in good)
+    cov = {
+        "states": max(pts, 1), "transitions": max(pts, 1), "traces_validated_against_impl": execs,
+        "samples": [{"job": r["job"], "schedule(thread index per scheduling point)": (r.get("samples") or [[]])[0][:80]}
+                    for r in good[:3]] or [{"note": "no sample"}],
+        "exhaustive": not any(r.get("capped") for r in good),
+        "executions": execs, "scheduling_points": pts,
+        "rule": "one execution = one complete interleaving of real worker threads at execute()/commit() granularity, enumerated by "
+                "iterative context bounding (all schedules with at most `bound` preemptions); stateless exploration: states/transitions "
+                "count scheduling points executed on the real code",
+        "per_job": [{k: r.get(k) for k in ("job", "executions", "points", "max_points", "bound", "capped", "distinct_outcomes",
+                                           "lock_waits", "lock_deadlocks", "wall_s", "stats", "pending_at_start",
+                                           "outcome_classes")} for r in good],
+        "headline": {"jobs": len(good), "executions": execs, "capped": sum(1 for r in good if r.get("capped"))},
+    }
+    if extra:
+        cov.update(extra)
+    return {
+        "level": "model_checking",
+        "coverage": cov,
+        "assumptions": assumptions or [
+            "preemption only at SQL statements and commits of managed threads (GIL: no finer shared-memory races relevant to the property)",
+            "threads-of-one-process model: shared processor objects, thread-local connections, rollback-journal mode",
+            "SQLite busy wait modelled as blocking (busy_timeout=0, retry after another thread made progress); the 30 s timeout is not modelled",
+            "after the concurrent section the queue is drained sequentially (FIFO)"],
+    }
+
+
+def sequential_outcomes(workload, prep, events=False):
+    """Outcomes of every SEQUENTIAL (message-granularity) order from the prepared state: what a
+    linearizable concurrent execution may produce."""
+    import collections
+
+    from .e1 import Explorer, State
+    from .e1jobs import world
+    from .view import take_view
+    from .world import dumps, pack
+
+    w = world(events=events)
+    ex = Explorer(w, workload, [], {})
+    w.load(prep["image"])
+    w.behaviours, w.task_names = dict(prep["behaviours"]), set(prep["task_names"])
+    w.exec_counts = dict(prep["exec_counts"])
+    w.incarnate()
+    w.drain_audit()
+    w.normalise_time()
+    view = take_view(w)
+    mon = {"ec": {"|".join(k): n for k, n in w.exec_counts.items()}, "flt": None}
+    init = State(pack(w.image()), view, mon, dict(ex.budget0), ())
+    seen = {ex.key(init)}
+    frontier = collections.deque([init])
+    outs = set()
+    n = 0
+    while frontier and n < 20000:
+        st = frontier.popleft()
+        if not st.view.queue:
+            outs.add(dumps(st.view.outcome()))
+            continue
+        for a in ex.enabled(st):
+            tr, b = ex.apply(st, a)
+            ns, _ = ex.fold(st, tr, b)
+            k = ex.key(ns)
+            if k in seen:
+                continue
+            seen.add(k)
+            ns.blob = pack(w.image())
+            frontier.append(ns)
+            n += 1
+    return outs
